@@ -58,7 +58,7 @@ var defs = map[string]checkDef{
 	"C20": {Engine: "B", Pkg: "./engb", MinEvals: 100},
 	"C11": {Engine: "B", Pkg: "./engb", MinEvals: 100},
 	"C06": {Engine: "C", Pkg: "./engc", MinEvals: 300, Overlay: true, RacePart: true, RaceN: 8},
-	"C12": {Engine: "A", Pkg: "./enga", MinEvals: 50000, RacePart: true, RaceN: 4, Extra: []extraPart{{Pkg: "./engb", N: 2, Env: []string{"VERIF_PART=defaults"}}}},
+	"C12": {Engine: "A", Pkg: "./enga", MinEvals: 80000, RacePart: true, RaceN: 4, Extra: []extraPart{{Pkg: "./engb", N: 2, Env: []string{"VERIF_PART=defaults"}}}},
 	"C14": {Engine: "A", Pkg: "./enga", MinEvals: 1000, RacePart: true, RaceN: 4},
 	"C15": {Engine: "A", Pkg: "./enga", MinEvals: 1000},
 	"C16": {Engine: "A", Pkg: "./enga", MinEvals: 1000},
